@@ -175,4 +175,51 @@ def specStep (m : Mem) (mu : Mutation) : Mem :=
 
 def specState (m : Mem) (hist : List Mutation) : Mem := hist.foldl specStep m
 
+/-! ### Volatile lease operations (`kv/aof/volatile.go` → `kv/memory/lease.go`)
+
+`Acquire` / `Renew` / `Release` go straight to the in-memory store: they are never logged, so after a
+restart the lease column of a key is whatever the logged mutations (imports) put there. Tokens are
+wall-clock deadlines in nanoseconds; the model only distinguishes *live* tokens (a deadline in the
+future: `≥ liveMin`) from stale ones (small numbers carried by imports, always in the past).
+`deleteAll` (RemoveKeys) drops the whole entry whatever its lease is, and no logged mutation reads
+the lease: that is what makes restarts reproduce values and children although leases are volatile. -/
+
+def liveMin : Nat := 1000000000000000
+/-- the token a successful `Acquire`/`Renew` stores (some deadline in the future) -/
+def liveTok : Nat := 1000000000000000000
+
+inductive VErr where
+  | invalidTTL    -- chord.ErrKVLeaseInvalidTTL
+  | conflict      -- chord.ErrKVLeaseConflict
+  | expired       -- chord.ErrKVLeaseExpired
+deriving DecidableEq, Repr
+
+/-- a lease call; `ttlOk` = `durationGuard` accepts the ttl (≥ 1 s); a token argument `none` means
+"the caller presents the token currently stored" (what an honest holder does) -/
+inductive VOp where
+  | acquire (k : Bytes) (ttlOk : Bool)
+  | renew (k : Bytes) (ttlOk : Bool) (prev : Option Nat)
+  | release (k : Bytes) (tok : Option Nat)
+deriving DecidableEq, Repr
+
+/-- `MemoryKV.Acquire` / `Renew` / `Release` (single caller: the CAS never loses a race) -/
+def volatile (m : Mem) : VOp → Mem × Option VErr
+  | .acquire k ttlOk =>
+    if ¬ ttlOk then (m, some .invalidTTL)
+    else if (m.get k).lease ≥ liveMin then (m, some .conflict)          -- curr > now
+    else (m.set k { m.get k with lease := liveTok }, none)
+  | .renew k ttlOk prev =>
+    if ¬ ttlOk then (m, some .invalidTTL)
+    else if (m.get k).lease = 0 then (m, some .expired)
+    else if (m.get k).lease < liveMin then (m, some .expired)           -- now > curr
+    else if (m.get k).lease ≠ prev.getD (m.get k).lease then (m, some .expired)
+    else (m.set k { m.get k with lease := liveTok }, none)
+  | .release k tok =>
+    if (m.get k).lease = tok.getD (m.get k).lease then (m.set k { m.get k with lease := 0 }, none)
+    else (m, some .expired)
+
+/-- a lease call on the store: memory only, the log and the next index are untouched -/
+def Store.volatile (s : Store) (op : VOp) : Store × Option VErr :=
+  ({ s with mem := (Specter.Aof.volatile s.mem op).1 }, (Specter.Aof.volatile s.mem op).2)
+
 end Specter.Aof
